@@ -41,6 +41,10 @@ def esc(v):
     return html.escape(str(v), quote=False).replace('"', '&quot;')
 
 
+def st_render(v):
+    return v.replace('${sv}', 'SV') if v is not None else v
+
+
 def make_case(rng):
     n_static = rng.randint(0, 4)
     static = []
@@ -52,7 +56,11 @@ def make_case(rng):
         used.add(nm.lower())
         if rng.random() < 0.25:
             nm = nm.upper() if rng.random() < 0.5 else nm.capitalize()
-        static.append((nm, rng.choice(['s', 'S T', 'a&amp;b', nm.lower()])))
+        # a static attribute may hold ${…}: it is interpolated when nothing dynamic targets it, and replaced like any other when something does
+        sval = rng.choice(['s', 'S T', 'a&amp;b', nm.lower(), '${sv}', 'p-${sv}-q'])
+        if '${' in sval and nm.lower() not in ('id', 'title', 'href', 'data-x'):
+            sval = 's'          # an interpolated value of a boolean attribute follows the boolean rule: not this clause
+        static.append((nm, sval))
     entries = []
     seen = set()
     dvals = {}
@@ -70,6 +78,8 @@ def make_case(rng):
             continue
         seen.add(nm)
         entries.append((nm, rng.choice(list(VALUES))))
+    if any('${' in v for _, v in static) and any(v == 'default' for n, v in entries if n != 'DICT'):
+        return make_case(rng)
     mode = rng.choice(['html', 'html', 'explicit', 'xml', 'empty', 'xml-explicit'])
     if mode == 'html':
         booleans = set(HTML_BOOL)
@@ -129,7 +139,7 @@ def make_case(rng):
             nontrivial = True
             continue            # a later dictionary supplies this name
         if s['dyn'] is None:
-            out.append((s['name'], s['static']))
+            out.append((s['name'], st_render(s['static'])))
             continue
         val = VALUES[s['dyn']][1]
         nontrivial = True
@@ -171,7 +181,7 @@ def make_case(rng):
     iout = []
     for sl in islots:
         if sl['src'] is None:
-            iout.append((sl['name'], sl['static']))
+            iout.append((sl['name'], st_render(sl['static'])))
             continue
         kind, v = sl['src']
         val = VALUES[v][1] if kind == 'named' else v
@@ -195,7 +205,7 @@ def make_case(rng):
     # a dictionary key that matches another source only up to case: the property does not say; not generated
     if any(k.lower() in others and k not in {n for n, _ in static} | {n for n, _ in entries} for k in dvals):
         return make_case(rng)
-    vars_ = [['d', {'dict': [[{'str': k}, spec(v)] for k, v in dvals.items()]}]]
+    vars_ = [['d', {'dict': [[{'str': k}, spec(v)] for k, v in dvals.items()]}], ['sv', {'str': 'SV'}]]
     return {'src': src, 'vars': vars_, 'objs': [], 'cfg': cfg, 'impl_like': exp, 'overlap': overlap}, ideal, nontrivial
 
 
